@@ -48,7 +48,11 @@ func build(d *desc) *ss.Case {
 		st := ss.Step{Kind: "phase", ASends: d.ASends, NoWire: d.Fault != "none"}
 		for _, m := range d.Warm {
 			st.SOps = append(st.SOps, m.SOps()...)
-			st.ROps = append(st.ROps, ss.ROpsFor("complete", len(m.Bytes()), 0)...)
+			api := "complete"
+			if m.Kind == "secret" {
+				api = "secret" // GetSecret on the receiving side
+			}
+			st.ROps = append(st.ROps, ss.ROpsFor(api, len(m.Bytes()), 0)...)
 		}
 		c.Steps = append(c.Steps, st)
 	}
@@ -173,8 +177,12 @@ func gen(c *core.Ctx) error {
 	}
 	for ti, tr := range transcripts {
 		for si, su := range setups {
-			for _, warm := range []bool{false, true} {
-				if c.Quick() && (ti+si)%2 == 1 && warm {
+			for wi, warm := range []bool{false, true, true} {
+				if c.Quick() && (ti+si)%2 == 1 && warm && wi == 1 {
+					continue
+				}
+				withSecret := wi == 2 // warm-up contains a PutSecret/GetSecret exchange on the encrypting stream
+				if withSecret && !(ti == 0 || !c.Quick()) {
 					continue
 				}
 				aSends := (ti+si)%2 == 0
@@ -183,6 +191,10 @@ func gen(c *core.Ctx) error {
 				if warm {
 					w = []ss.Msg{dmsg(9, 4)}
 					base = 1
+				}
+				if withSecret {
+					w = []ss.Msg{dmsg(9, 4), {Kind: "secret", Chunks: []ss.Data{ss.Lit([]byte("s3cret"))}}}
+					base = 2
 				}
 				n := frameCount(tr)
 				mk := func(fault string, edit []ss.EditItem) *desc {
